@@ -34,3 +34,5 @@ func vfSpawnCut(f func(), cut int)
 func vfStallHook(region []byte, cut int, f func())
 func vfStallHookOff()
 func vfInfeasibleOK()
+func vfRunGoroutines()
+func vfSyncHook(cut int, f func())
